@@ -16,13 +16,19 @@
      claiming compare-exchange failed) and a stale stream list (pointer re-validation failed) and the length of
      the list being scanned; C18_send_body_solo_bound - from the start of the body at most
      2 * (number of registered streams) + 16 consecutive own steps stay inside it.
+   - whole calls: C18_call_rank_decreases - a ranking function over the program counter and the frames of the call
+     stack (well-formed by the control invariant) that every own step of try_send, try_recv or try_recv_view
+     decreases from the first step of the call (client side included: creation of the payload, epoch
+     announcement, the bodies above, the drop of a refused or received value, the return) unless the step leaves
+     the call; C18_try_send_solo_bound - a try_send completes within 2 * (number of registered streams) + 35
+     consecutive own steps; C18_try_recv_solo_bound - a try_recv / try_recv_view within 52.
    So a try operation never spins on another thread's unfinished work: an unpublished slot yields Empty, a pinned
-   slot Full.  Not covered by a ranking function: the epoch announcement (update_token, straight-line code) and
-   the notification calls after the body (they take a mutex of the wait strategy: C18 is stated for strategies
-   that need no notification); spurious failures of compare_exchange_weak are excluded ([micro] models a weak
+   slot Full.  Not covered: the notification calls after a successful send on strategies that need a notification
+   (they take a mutex of the wait strategy: the step leaves the ranked set; C18 is stated for strategies that
+   need none, where that call returns at once); spurious failures of compare_exchange_weak are excluded ([micro] models a weak
    compare-exchange that fails only when the value differs; the spurious step is [micro_spur]). *)
 From Coq Require Import NArith List Bool.
-Require Import MQ.Arith64 MQ.Types MQ.State MQ.Model MQ.Exec MQ.Reach MQ.Ctl MQ.CtlFacts MQ.SoloRecvStep MQ.SoloSendStep.
+Require Import MQ.Arith64 MQ.Types MQ.State MQ.Model MQ.Exec MQ.Reach MQ.Ctl MQ.CtlFacts MQ.SoloRecvStep MQ.SoloSendStep MQ.SoloCall.
 Import ListNotations.
 Open Scope N_scope.
 
@@ -86,6 +92,47 @@ Proof. exact solo_send_from_start. Qed.
 Check C18_send_body_solo_bound : forall c me k A S,
   solo_send c me k A S -> a_pc A = TSmode -> N.of_nat k <= 2 * lenN (ggroup S (cur S)) + 16.
 Print Assumptions C18_send_body_solo_bound.
+
+Theorem C18_call_rank_decreases : forall c me A S o,
+  micro c me A S = Some o -> ctl_ok A = true -> in_call (a_pc A) = true ->
+  in_call (a_pc (o_a o)) = false \/ call_rank (o_a o) (o_s o) < call_rank A S.
+Proof. exact micro_call_rank. Qed.
+Check C18_call_rank_decreases : forall c me A S o,
+  micro c me A S = Some o -> ctl_ok A = true -> in_call (a_pc A) = true ->
+  in_call (a_pc (o_a o)) = false \/ call_rank (o_a o) (o_s o) < call_rank A S.
+Print Assumptions C18_call_rank_decreases.
+
+Theorem C18_try_send_solo_bound : forall c me k A S,
+  solo_call c me k A S -> ctl_ok A = true -> a_pc A = TSbegin -> a_stack A = [] ->
+  N.of_nat k <= 2 * lenN (ggroup S (cur S)) + 35.
+Proof. exact solo_try_send_bound. Qed.
+Check C18_try_send_solo_bound : forall c me k A S,
+  solo_call c me k A S -> ctl_ok A = true -> a_pc A = TSbegin -> a_stack A = [] ->
+  N.of_nat k <= 2 * lenN (ggroup S (cur S)) + 35.
+Print Assumptions C18_try_send_solo_bound.
+
+Theorem C18_try_recv_solo_bound : forall c me k A S,
+  solo_call c me k A S -> ctl_ok A = true -> a_pc A = E0 -> a_stack A = [] -> (k <= 52)%nat.
+Proof. exact solo_try_recv_bound. Qed.
+Check C18_try_recv_solo_bound : forall c me k A S,
+  solo_call c me k A S -> ctl_ok A = true -> a_pc A = E0 -> a_stack A = [] -> (k <= 52)%nat.
+Print Assumptions C18_try_recv_solo_bound.
+
+(* non-vacuity: a whole try_send run solo from the first step of the call on the initial queue stays inside the call
+   for ten own steps; a try_recv for eight *)
+Example C18_call_witness :
+  let c := mk_cfg BCast 2 WBusy in
+  (exists A, a_pc A = TSbegin /\ a_stack A = [] /\ ctl_ok A = true /\ solo_call c 0 10 A (sh (init false))) /\
+  (exists A, a_pc A = E0 /\ a_stack A = [] /\ ctl_ok A = true /\ solo_call c 1 8 A (sh (init false))).
+Proof.
+  cbv zeta. split.
+  - exists (mkagent RSender true false 0 0 TSbegin [] (set_r_call (CTrySend 7) empty_regs) false false).
+    split; [reflexivity|]. split; [reflexivity|]. split; [vm_compute; reflexivity|].
+    do 10 (eapply csolo_S; [vm_compute; reflexivity|reflexivity|]). apply csolo_0.
+  - exists (mkagent RRecv true true 0 1 E0 [] (set_r_call CTryRecv empty_regs) false false).
+    split; [reflexivity|]. split; [reflexivity|]. split; [vm_compute; reflexivity|].
+    do 8 (eapply csolo_S; [vm_compute; reflexivity|reflexivity|]). apply csolo_0.
+Qed.
 
 (* non-vacuity: solo runs exist - three own steps of a receive attempt, three of a send body, from the initial state
    of a broadcast queue with the agents just inside the bodies *)
